@@ -41,7 +41,11 @@ RULE = ('history = initial hive write (0-2 partition columns of six value '
 COMPONENTS = {
     'real': ['fastparquet *.py from /repo working tree',
              'cencoding/speedups C extensions rebuilt from /repo .c files',
-             'pandas', 'numpy', 'cramjam', 'fsspec AbstractFileSystem base'],
+             'pandas', 'numpy', 'cramjam', 'fsspec AbstractFileSystem base',
+             'a 10% slice of the histories: the real local filesystem (private '
+             'tmpfs directory) through the library\'s default open/mkdirs/'
+             'remove - code that only acts on the default path is invisible '
+             'to a caller-supplied filesystem'],
     'stub': ['filesystem -> sim.simfs.SimFS (event log, rename-clobber '
              'monitor)', 'footer reader for the consistency oracle -> '
              'sim.minithrift (independent of fastparquet)'],
@@ -55,7 +59,7 @@ ASSUMPTIONS = [
     'rows with a null partition key are dropped by the library (documented); '
     'the generators produce none',
 ]
-PART_KINDS = ('pstr', 'pnum', 'pint', 'pbool', 'pfloat', 'pts')
+PART_KINDS = ('pstr', 'pnum', 'pint', 'pbool', 'pfloat', 'pts', 'pcat')
 COL_KINDS = ('i64', 'i32', 'f64', 'str', 'obj', 'bool', 'dt', 'cat', 'u8')
 SORT_KEYS = ('nrows', 'path', 'rpath', 'offset')
 
@@ -116,8 +120,38 @@ def generate(seed, idx, tier):
                 o['sort_key'] = rng.choice(SORT_KEYS + (None,))
                 o['sort_pnames'] = rng.random() < 0.6
         ops.append(o)
+    p0 = next(iter(shape['parts']), None)
+    if p0 and len(shape['parts'][p0][1]) >= 2 and rng.random() < 0.12:
+        # template: an edit that keeps the summary's byte size between two
+        # appends - write partition A, append partition B, overwrite B with
+        # an equally shaped frame, append again.  State remembered across
+        # operations by anything but the files themselves goes stale here.
+        va, vb = shape['parts'][p0][1][:2]
+
+        def only(frame, val):
+            fr = copy.deepcopy(frame)
+            for name in fr['part']:
+                kind, choices, pseed = fr['part'][name]
+                fr['part'][name] = [kind, [val] if name == p0
+                                    else choices[:1], pseed]
+            return fr
+        w = dict(ops[0])
+        w['frame'] = only(f0, va)
+        f1 = only(gen_frame_spec(rng, shape, 1), vb)
+        a1 = {'op': 'append', 'frame': f1, 'entry': 'write'}
+        a1.update(gen_wopts(rng, f1['nrows'], has_cat, knobs))
+        twin = copy.deepcopy(f1)
+        twin['batch'] = 2
+        ov = {'op': 'overwrite', 'frame': twin, 'entry': 'func',
+              'sort_pnames': False, 'rgo': a1.get('rgo'),
+              'codec': a1.get('codec'), 'stats': a1.get('stats')}
+        f3 = gen_frame_spec(rng, shape, 3)
+        a3 = {'op': 'append', 'frame': f3, 'entry': 'write'}
+        a3.update(gen_wopts(rng, f3['nrows'], has_cat, knobs))
+        ops = [w, a1, ov, a3]
     return {'prop': PROP, 'seed': seed, 'idx': idx, 'tier': tier,
-            'knobs': knobs, 'shape': shape, 'ops': ops}
+            'knobs': knobs, 'shape': shape, 'ops': ops,
+            'local': rng.random() < 0.15}
 
 
 # --------------------------------------------------------------- consistency
@@ -204,7 +238,16 @@ def execute(case):
 
     parts = list(case['shape']['parts'])
     pkinds = [case['shape']['parts'][p][0] for p in parts]
-    fs = D.new_fs('posix')
+    fs = D.new_fs('posix', local=case.get('local', False))
+    ds = D.ds_path(fs)
+    try:
+        return _execute(case, fs, ds, res, cnt, probes, bump, violation,
+                        parts, pkinds)
+    finally:
+        D.cleanup(fs)
+
+
+def _execute(case, fs, ds, res, cnt, probes, bump, violation, parts, pkinds):
     rows = {}            # uid -> {col: cell}   (the multiset model)
     order = []           # batches in order, while only write/append happened
     ordered = True
@@ -222,7 +265,7 @@ def execute(case):
                 if kind == 'write':
                     df = F.build_frame(op['frame'])
                     try:
-                        D.do_write(fs, D.DS, df, op, 'hive', parts)
+                        D.do_write(fs, ds, df, op, 'hive', parts)
                     except Exception as e:
                         res.update(verdict='discard', digest='discard',
                                    evals=0, discard='initial write refused: '
@@ -233,7 +276,7 @@ def execute(case):
                     df = F.build_frame(op['frame'])
                     if len(df) == 0:
                         continue       # refused today (C07 matter)
-                    D.do_append(fs, D.DS, df, op, 'hive', parts)
+                    D.do_append(fs, ds, df, op, 'hive', parts)
                     _add(rows, order, df, parts)
                 elif kind == 'overwrite':
                     df = F.build_frame(op['frame'])
@@ -241,18 +284,17 @@ def execute(case):
                         continue
                     kw = D.w_opts(op)
                     if op['entry'] == 'write':
-                        D.write(D.DS, df, file_scheme='hive',
-                                partition_on=parts, open_with=fs.open,
-                                mkdirs=fs.mkdirs, append='overwrite', **kw)
+                        D.write(ds, df, file_scheme='hive',
+                                partition_on=parts, append='overwrite',
+                                **kw, **D.io(fs))
                     else:
                         from fastparquet.writer import overwrite
-                        overwrite(D.DS, df,
+                        overwrite(ds, df,
                                   row_group_offsets=kw.get(
                                       'row_group_offsets'),
                                   sort_pnames=op['sort_pnames'],
                                   compression=kw.get('compression'),
-                                  open_with=fs.open, mkdirs=fs.mkdirs,
-                                  remove_with=fs.rm,
+                                  **D.io(fs, remove=True),
                                   stats=kw.get('stats', True))
                     canon = F.canon_frame(df)
                     uids, new_rows = D.by_uid(canon)
@@ -271,7 +313,7 @@ def execute(case):
                     df = F.build_frame(op['frame'])
                     if len(df) == 0:
                         continue
-                    pf = D.ParquetFile(D.DS, fs=fs)
+                    pf = D.open_pf(ds, fs)
                     kw = D.w_opts(op)
                     if op['sort_pnames']:
                         collisions += _collisions(pf)
@@ -280,13 +322,12 @@ def execute(case):
                         sort_key=sort_key_fn(op.get('sort_key')),
                         sort_pnames=op['sort_pnames'],
                         compression=kw.get('compression'),
-                        open_with=fs.open, mkdirs=fs.mkdirs,
-                        stats=kw.get('stats', 'auto'))
+                        stats=kw.get('stats', 'auto'), **D.io(fs))
                     _add(rows, order, df, parts)
                     if op.get('sort_key'):
                         ordered = False
                 elif kind == 'remove':
-                    pf = D.ParquetFile(D.DS, fs=fs)
+                    pf = D.open_pf(ds, fs)
                     n = len(pf.row_groups)
                     if n < 2:
                         continue
@@ -309,8 +350,9 @@ def execute(case):
                     target = [pf.row_groups[i] for i in idxs]
                     pf.remove_row_groups(
                         target[0] if op['how'] == 'single' else target,
-                        sort_pnames=op['sort_pnames'], open_with=fs.open,
-                        remove_with=fs.rm)
+                        sort_pnames=op['sort_pnames'],
+                        **({} if D.is_local(fs) else
+                           {'open_with': fs.open, 'remove_with': fs.rm}))
                     for i in idxs:
                         for u in per_rg[i]:
                             del rows[u]
@@ -348,7 +390,7 @@ def execute(case):
                           % (si, kind, hit[1]), si)
                 break
             # ---- consistency from bytes
-            probs = consistency(fs, D.DS)
+            probs = consistency(fs, ds)
             if probs:
                 violation('C09/summary-directory-disagree:%s' % _pclass(
                     probs[0]), 'step %d (%s): %s' % (si, kind,
@@ -357,7 +399,7 @@ def execute(case):
                 break
             # ---- content through a fresh handle
             try:
-                snap = D.read_all(fs, D.DS)
+                snap = D.read_all(fs, ds)
             except Exception as e:
                 violation('C09/unreadable-after-%s' % kind,
                           'step %d (%s): fresh open/read fails: %s: %s'
@@ -386,6 +428,8 @@ def execute(case):
            for p in fs.files if 'part.' in p):
         bump(probes, 'part_number_10_or_more')
     res['digest'] = h.hexdigest() + fs.digest()
+    if D.is_local(fs):
+        bump(probes, 'histories_on_real_local_directory')
     if case['idx'] % 50 == 0:
         res['sample'] = {'partitions': case['shape']['parts'],
                          'ops': trail, 'knobs': case['knobs']}
